@@ -977,6 +977,9 @@ func (in *Interp) intBinop(op token.Token, x, y Int) V {
 		}
 		panic(unsupported("int binop " + op.String()))
 	}
+	if r, ok := in.divCmpConst(op, x, y); ok {
+		return r
+	}
 	xt, yt := in.term(x), in.term(y)
 	ar := func(o string) V { return in.mkInt(in.ts.Op(o, w, xt, yt), w, s) }
 	cmp := func(ou, os string) V {
